@@ -18,11 +18,15 @@ func indexSep(pat string) (int, int) {
 		switch i := strings.IndexAny(pat, `/\`); {
 		case i == -1:
 			return -1, 0
-		case pat[i] == '\\' && i+1 < len(pat):
+		case pat[i] == '\\':
+			if i+1 == len(pat) {
+				return -1, 0
+			}
 			if pat[i+1] == '/' {
 				return n - len(pat[i:]), 2
 			}
-			pat = pat[i+1:]
+			// skip the escaped character
+			pat = pat[i+2:]
 		default:
 			return n - len(pat[i:]), 1
 		}
